@@ -11,6 +11,8 @@ CONSTANTS
  DevKeepBrokers = TRUE
  DevIdFilterAll = FALSE
  DevDropErrTopics = FALSE
+ DevDupNameLosesSlot = FALSE
+ DevFlightKeyIgnoresIds = FALSE
  DevStaleIdCache = FALSE
 INIT Init
 NEXT Next
